@@ -25,7 +25,7 @@ FLAGS_plain := -O2 -g
 FLAGS_cov := -O1 -g -fprofile-instr-generate -fcoverage-mapping
 REPO_DEFS := -include sim/repo_config.h -I$(REPO) -I$(REPO)/mtbl -DMTBL_VERIF -Isim -msse4.2 -Wno-macro-redefined -include sim/seams/pthread.h
 
-SEAM_mtbl/writer.c := -include sim/seams.h -Dwrite=sim_write -Dopen=sim_open -Dclose=sim_close -Ddup=sim_dup
+SEAM_mtbl/writer.c := -include sim/seams.h -Dwrite=sim_write -Dwritev=sim_writev -Dpwrite=sim_pwrite -Dpwritev=sim_pwritev -Dopen=sim_open -Dclose=sim_close -Ddup=sim_dup
 SEAM_mtbl/reader.c := -include sim/seams.h -Dmmap=sim_mmap -Dmunmap=sim_munmap -Dopen=sim_open -Dclose=sim_close
 SEAM_mtbl/sorter.c := -include sim/seams.h -Dmkstemp=sim_mkstemp -Dmkostemp=sim_mkostemp -Dopen=sim_open -Dunlink=sim_unlink -Dclose=sim_close
 SEAM_mtbl/fileset.c := -include sim/seams.h -Dclock_gettime=sim_clock_gettime
